@@ -16,6 +16,7 @@ CLASS_HOME = {
     'FiniteDifference': 'openmdao/approximation_schemes/finite_difference.py',
     '_SubHelper': 'openmdao/utils/file_wrap.py',
     'DOEDriver': 'openmdao/drivers/doe_driver.py',
+    'ScipyOptimizeDriver': 'openmdao/drivers/scipy_optimizer.py',
     '_pyDOE_Generator': 'openmdao/drivers/doe_generators.py',
     'Subjac': 'openmdao/jacobians/subjac.py',
     'DenseSubjac': 'openmdao/jacobians/subjac.py',
